@@ -1,7 +1,7 @@
 """C04 - interleaved scheduler: main stream, batch cutting and stopping point are exact."""
 from vf.engine import Cond
 from harness import ilv
-from harness.ilv import body_whole, body_whole_geo, body_epoch_step  # noqa: F401  (bodies are looked up on this module)
+from harness.ilv import body_whole, body_whole_geo, body_whole_geo_stateful, body_epoch_step  # noqa: F401  (bodies are looked up on this module)
 
 MANIFEST_LEVEL = 'Within the stated bounds the SMT solver decides every path of the real InterleavedSampler (_training_loop, _eval_loop, batch sampler) against a closed-form oracle: whole runs with symbolic budget (and symbolic geometry n<=4..6), plus an inductive epoch step from any epoch boundary E<=1000 with unbounded budget. Unit tests sample 17 streams; here geometry x budget kind is enumerated and budget value / counters are symbolic.'
 MANIFEST_NOTE = "Trusted: CrossHair's models and z3; probe samplers yield len() indices; oracle in harness/ilv.py. Outside: n above the enumerated bound, real DataLoader workers."
@@ -9,6 +9,7 @@ MANIFEST_TECHNIQUE = "bounded symbolic execution of the real code (CrossHair on 
 PROPERTY = "C04"
 ENCODED = ilv.ENCODED[:5]
 STUBS = [
+    "MainProbeStateful: main sampler without set_epoch whose k-th iteration yields the rotation by k",
     "MainProbe: main sampler of symbolic length n whose epoch content is a rotation by the epoch announced via set_epoch; logs set_epoch/__iter__ order",
     "SideProbe: interleaved-config sampler of symbolic length m yielding m-1..0",
     "DS: data source whose only behaviour is len()",
@@ -135,6 +136,14 @@ def conditions(tier, rng):
         for kind in ("epochs", "updates", "samples"):
             v = VMAX[tier][kind]
             conds.append(whole_geo_cond(H, g, kind, ["u", "e"], v, True, to, m_max=2, cbs_max=0, ex_max=0, ene_max=2, enu_max=2))
+    # main sampler without set_epoch whose content changes with every iteration
+    for g in (geos if tier == "thorough" else rng.sample(geos, 12)):
+        for kind in ("epochs", "updates", "samples"):
+            c = whole_geo_cond(H, g, kind, [], VMAX[tier][kind], False, to)
+            c.body = "body_whole_geo_stateful"
+            c.name = c.name.replace("wholegeo[", "wholegeo-stateful[")
+            c.group = "whole-run-stateful-sampler"
+            conds.append(c)
     # inductive epoch step, E and budget unbounded
     for g in geometries(5 if tier == "quick" else 7):
         for kind in ("epochs", "updates", "samples"):
